@@ -198,6 +198,22 @@ pub fn specs(tier: &str) -> Vec<ExpSpec> {
             ];
             v.push(ExpSpec::new(c, alphabet(512), 3).with_prefix(prefix));
         }
+        // cluster-chained directory that an entry set fills EXACTLY to the end of its last cluster, on a volume without a
+        // free cluster: 2 + 9 + 2 slots by the prefix, a 14-character name (3 slots) ends at slot 16
+        {
+            let mut c = vol::tiny_low(FatType::Fat32, 0, 16);
+            c.name = format!("{}-rootexact", c.name);
+            let prefix = vec![
+                Op::CreateFile { base: r, path: "h".into(), keep: None },
+                Op::CreateFile { base: r, path: "m".repeat(100), keep: None },
+                Op::CreateFile { base: r, path: "f".into(), keep: None },
+            ];
+            let mut a = alphabet(512);
+            a.push(Op::CreateFile { base: r, path: "n".repeat(14), keep: None });
+            a.push(Op::Remove { base: r, path: "n".repeat(14) });
+            a.push(Op::CreateDir { base: r, path: "e".repeat(14), keep: None });
+            v.push(ExpSpec::new(c, a, 2).with_prefix(prefix));
+        }
     }
     // FAT32 whose entries all carry reserved top bits (0xA), free count unknown: the recount has to mask them
     {
